@@ -100,6 +100,8 @@ void h_run(Case &c) {
   static const char *syns[] = {"pack:2 [numa] l3:2 core:2 pu:2", "numa:3 pack:2 core:2 pu:1", "pack:3 [numa] [numa] core:3 pu:1", "group:2 pack:2 [numa] l2:2 core:1 pu:2", "[numa] pack:4 pu:2", "pack:2 core:4 pu:2"};
   const char *syn = d.pick(syns); bool ks = d.chance(1, 3); c.descf("synthetic=\"%s\"%s", syn, ks ? " all filters KEEP_STRUCTURE" : "");
   hwloc_topology_t t; hwloc_topology_init(&t); hwloc_topology_set_synthetic(t, syn); if (ks) hwloc_topology_set_all_types_filter(t, HWLOC_TYPE_FILTER_KEEP_STRUCTURE);
+  // the NO_* flags only ignore what the OS/XML reports: everything the application adds must behave the same (F-C13-c)
+  { unsigned long tf = 0; if (d.chance(1, 3)) { if (d.chance(1, 2)) tf |= HWLOC_TOPOLOGY_FLAG_NO_DISTANCES; if (d.chance(1, 3)) tf |= HWLOC_TOPOLOGY_FLAG_NO_MEMATTRS; if (d.chance(1, 3)) tf |= HWLOC_TOPOLOGY_FLAG_NO_CPUKINDS; } if (tf) { hwloc_topology_set_flags(t, tf); c.descf(" flags=0x%lx", tf); c.cls("topology-flags:NO_*"); } }
   CHECK(c, hwloc_topology_load(t) == 0, "setup", "load failed");
   { int nswitch = d.range(0, 3); for (int i = 0; i < nswitch; i++) { hwloc_obj_t o = sel_obj_with_sets(d, t); hwloc_obj_set_subtype(t, o, "NVSwitch"); } }
   static const int types[] = {HWLOC_OBJ_PU, HWLOC_OBJ_CORE, HWLOC_OBJ_PACKAGE, HWLOC_OBJ_NUMANODE, HWLOC_OBJ_L2CACHE, HWLOC_OBJ_L3CACHE, HWLOC_OBJ_GROUP, HWLOC_OBJ_MACHINE};
@@ -186,6 +188,22 @@ bool h_named(const std::string &name, Case &c) {
     hwloc_distances_add_handle_t h = hwloc_distances_add_create(t, "k0", 0, 0); CHECK(c, h != NULL, "named_setup", "kind 0 rejected by add_create"); hwloc_distances_add_values(t, h, 4, objs, v, 0); hwloc_distances_add_commit(t, h, 0);
     std::string x = export_xml(t); hwloc_topology_t n; hwloc_topology_init(&n); hwloc_topology_set_xmlbuffer(n, x.c_str(), (int)x.size() + 1); CHECK(c, hwloc_topology_load(n) == 0, "xml_reload", "reload of the exported XML failed");
     unsigned nr = 0; hwloc_distances_get(n, &nr, NULL, 0, 0); CHECK(c, nr == 1, "list", "reloaded topology has %u distances structures", nr); hwloc_topology_destroy(n);
+  } else if (name == "F-C13-c") {   // NO_DISTANCES/NO_MEMATTRS/NO_CPUKINDS topologies: restrict did not invalidate what the application added (dangling object pointers)
+    c.desc("flags NO_DISTANCES|NO_MEMATTRS|NO_CPUKINDS; user distances over PU#0..3, a Bandwidth value and a CPU kind; restrict to PU#0-1; distances_get / memattr / cpukinds queries");
+    hwloc_topology_destroy(t); hwloc_topology_init(&t); hwloc_topology_set_flags(t, HWLOC_TOPOLOGY_FLAG_NO_DISTANCES | HWLOC_TOPOLOGY_FLAG_NO_MEMATTRS | HWLOC_TOPOLOGY_FLAG_NO_CPUKINDS); hwloc_topology_set_synthetic(t, "pack:2 [numa] core:4 pu:2"); hwloc_topology_load(t);
+    for (int i = 0; i < 4; i++) objs[i] = hwloc_get_obj_by_type(t, HWLOC_OBJ_PU, i * 4);
+    hwloc_distances_add_handle_t h = hwloc_distances_add_create(t, "user", HWLOC_DISTANCES_KIND_FROM_USER | HWLOC_DISTANCES_KIND_VALUE_LATENCY, 0); CHECK(c, h && hwloc_distances_add_values(t, h, 4, objs, v, 0) == 0 && hwloc_distances_add_commit(t, h, 0) == 0, "named_setup", "cannot add distances");
+    struct hwloc_location loc; loc.type = HWLOC_LOCATION_TYPE_CPUSET; loc.location.cpuset = hwloc_get_obj_by_type(t, HWLOC_OBJ_PACKAGE, 0)->cpuset; hwloc_obj_t n1 = hwloc_get_obj_by_type(t, HWLOC_OBJ_NUMANODE, 1);
+    // (with NO_MEMATTRS the standard attributes do not exist: the application registers its own)
+    { hwloc_memattr_id_t id = 0; errno = 0; int r0 = hwloc_memattr_register(t, "mine", HWLOC_MEMATTR_FLAG_HIGHER_FIRST | HWLOC_MEMATTR_FLAG_NEED_INITIATOR, &id); int r = r0 == 0 ? hwloc_memattr_set_value(t, id, n1, &loc, 0, 77) : -1; CHECK(c, r0 == 0 && r == 0, "named_setup", "cannot register/set a memory attribute: %d %d errno %d", r0, r, errno); }
+    hwloc_bitmap_t k = hwloc_bitmap_alloc(); hwloc_bitmap_set_range(k, 6, 11); CHECK(c, hwloc_cpukinds_register(t, k, 3, NULL, 0) == 0, "named_setup", "cannot register a CPU kind"); hwloc_bitmap_free(k);
+    hwloc_bitmap_t keep = hwloc_bitmap_alloc(); hwloc_bitmap_set_range(keep, 0, 7); CHECK(c, hwloc_topology_restrict(t, keep, HWLOC_RESTRICT_FLAG_REMOVE_CPULESS) == 0, "named_setup", "restrict failed"); hwloc_bitmap_free(keep);
+    require_wf(c, t, "after restrict");
+    std::string d1 = dump_topology(t, DUMP_GP | DUMP_EXTRAS);    // distances_get (objects of removed PUs were freed), memattr targets, cpukinds
+    unsigned nr = 4; struct hwloc_distances_s *dd[4]; CHECK(c, hwloc_distances_get(t, &nr, dd, 0, 0) == 0, "list", "distances_get failed");
+    for (unsigned i = 0; i < nr && i < 4; i++) { for (unsigned j = 0; j < dd[i]->nbobjs; j++) CHECK(c, dd[i]->objs[j] && dd[i]->objs[j]->type == HWLOC_OBJ_PU && hwloc_bitmap_isset(hwloc_topology_get_topology_cpuset(t), dd[i]->objs[j]->os_index), "restrict_objs", "distances structure still refers to a removed object"); hwloc_distances_release(t, dd[i]); }
+    hwloc_bitmap_t ks = hwloc_bitmap_alloc(); int nk = hwloc_cpukinds_get_nr(t, 0); for (int i = 0; i < nk; i++) { hwloc_cpukinds_get_info(t, i, ks, NULL, NULL, 0); CHECK(c, hwloc_bitmap_isincluded(ks, hwloc_topology_get_topology_cpuset(t)), "restrict_cpukinds", "CPU kind %d still contains removed PUs: %s", i, bstr(ks).c_str()); } hwloc_bitmap_free(ks);
+    CHECK(c, hwloc_topology_refresh(t) == 0, "refresh", "refresh failed"); std::string d2 = dump_topology(t, DUMP_GP | DUMP_EXTRAS); CHECK(c, d1 == d2, "refresh", "refresh changed the observable state: %s", first_diff(d1, d2).c_str());
   } else { hwloc_topology_destroy(t); return false; }
   hwloc_topology_destroy(t); return true;
 }
